@@ -33,6 +33,7 @@ func init() {
 		Run: func(r *core.Run) {
 			c14CountEqualsDeliveries(r)
 			c14DeliveryUnderLock(r)
+			c14ConnectionWritesUnderConnLock(r)
 			c14EntryDiscriminator(r)
 			c14ConnID(r)
 			c14FanOut(r)
